@@ -47,6 +47,7 @@ cfg("MC_exec_mut.cfg", exec_consts(FieldAlpha="<- AlphaMut", OpTypes='= {"mutati
 cfg("MC_exec_merge.cfg", exec_consts(FieldAlpha="<- AlphaMerge", Aliases='= {""}', Conds='= {"A", "B"}', MaxSel="= 6", MaxDepth="= 4", MaxOverlay="= 0"), EXEC_INV)
 cfg("MC_exec_ops2.cfg", exec_consts(FieldAlpha="<- AlphaOps2", Aliases='= {""}', MaxOps="= 2", MaxFrags="= 2", Conds='= {"Query"}', MaxSel="= 4", MaxDepth="= 2", MaxOverlay="= 0",
     DirOpts="<- DirsVarOnly", ArgOpts="<- ArgOptsOps2", VarVals="<- VarValsSmall"), EXEC_INV)
+cfg("MC_exec_merget.cfg", exec_consts(FieldAlpha="<- AlphaMergeT", Aliases='= {""}', Conds='= {"A"}', MaxSel="= 7", MaxDepth="= 4", MaxOverlay="= 0"), EXEC_INV)
 cfg("MC_exec_merge2.cfg", exec_consts(FieldAlpha="<- AlphaMerge2", Aliases='= {""}', Conds='= {"T"}', MaxFrags="= 1", MaxSel="= 5", MaxDepth="= 3", MaxOverlay="= 0"), EXEC_INV)
 cfg("MC_exec_mutargs.cfg", exec_consts(FieldAlpha="<- AlphaMutArgs", OpTypes='= {"mutation"}', Aliases='= {"", "z"}', ArgOpts="<- ArgOptsFew", MaxSel="= 4", MaxOverlay="= 0"), EXEC_INV)
 cfg("MC_exec_fragvar.cfg", exec_consts(FieldAlpha="<- AlphaFragVar", Aliases='= {""}', Conds='= {"T"}', MaxFrags="= 2", DirOpts="<- DirsVarOnly", MaxSel="= 4", MaxOverlay="= 0"), EXEC_INV)
